@@ -384,3 +384,250 @@ def ages_program(task):
         res["reason"] = traceback.format_exc()[-1200:]
     res["wall_s"] = round(time.time() - t0, 1)
     return res
+
+
+# ---------------------------------------------------------------------------------------------
+# C02-R: rule-level soundness on the sub-databases of canonical databases (any model size)
+def _stage_vars(prem, concl):
+    vs = []
+    for a in prem + [concl]:
+        for v in S.atom_vars(a):
+            if v not in vs:
+                vs.append(v)
+    return vs
+
+
+def justified(stages, tys_of, facts, elems, field_kind, rel, tup):
+    """is the push (kind, rel, tuple) the conclusion of some stage of the rule under some assignment over `elems` (per type) whose
+    premise holds literally in `facts` ({rel: set(rows)})?  Variables equated by premise equalities or by earlier then-equalities of
+    the stage's path are identified first."""
+    for prem, concl, tys, eqs in stages:
+        if concl[0] != field_kind:
+            continue
+        if field_kind in ("rel", "def") and M.snake(concl[1]) != rel:
+            continue
+        if field_kind == "eq" and M.snake(tys[concl[1]]) != rel:
+            continue
+        uf = UF()
+        vs = _stage_vars(prem, concl)
+        for v in vs:
+            uf.find(v)
+        for a in prem:
+            if a[0] == "eq":
+                uf.union(a[1], a[2])
+        for x, y in eqs:
+            if x in uf.p and y in uf.p:
+                uf.union(x, y)
+        reps = sorted(set(uf.find(v) for v in vs))
+        doms = [range(elems.get(M.snake(tys[r]), 0)) for r in reps]
+        for vals in itertools.product(*doms):
+            sg = dict(zip(reps, vals))
+            val = lambda v: sg[uf.find(v)]
+            ok = True
+            for a in prem:
+                if a[0] == "rel" and tuple(val(v) for v in a[2]) not in facts.get(M.snake(a[1]), ()):
+                    ok = False
+                    break
+            if not ok:
+                continue
+            if field_kind == "rel" and tuple(val(v) for v in concl[2]) == tup:
+                return True
+            if field_kind == "def" and tuple(val(v) for v in concl[2]) == tup:
+                return True
+            if field_kind == "eq" and set((val(concl[1]), val(concl[2]))) == set(tup):
+                return True
+    return False
+
+
+def chase(rules, facts, elems, types_of_rel, max_new=3, max_rounds=40):
+    """naive reference chase over concrete facts ({rel: set(rows)}) and element counts per type; returns (facts modulo equalities,
+    find function per type) or None if it does not stabilise within the bounds"""
+    par = {t: list(range(n)) for t, n in elems.items()}
+
+    def find(t, x):
+        while par[t][x] != x:
+            x = par[t][x]
+        return x
+    facts = {r: set(rows) for r, rows in facts.items()}
+    allstages = [(st, rn) for rn, paths in rules for st in stage_list(paths)]
+    created = 0
+    for _ in range(max_rounds):
+        changed = False
+        # canonicalise
+        for r in list(facts):
+            tps = types_of_rel.get(r)
+            if tps is None:
+                continue
+            new = set(tuple(find(t, x) for t, x in zip(tps, row)) for row in facts[r])
+            if new != facts[r]:
+                facts[r] = new
+        for (prem, concl, tys, eqs), rn in allstages:
+            vs = _stage_vars(prem, concl)
+            doms = [[x for x in range(len(par[M.snake(tys[v])])) if find(M.snake(tys[v]), x) == x] for v in vs]
+            for vals in itertools.product(*doms):
+                sg = dict(zip(vs, vals))
+                ok = True
+                for a in prem:
+                    if a[0] == "rel":
+                        if tuple(sg[v] for v in a[2]) not in facts.get(M.snake(a[1]), ()):
+                            ok = False
+                            break
+                    elif a[0] == "eq" and sg[a[1]] != sg[a[2]]:
+                        ok = False
+                        break
+                if not ok:
+                    continue
+                if concl[0] == "rel":
+                    row = tuple(sg[v] for v in concl[2])
+                    if row not in facts.setdefault(M.snake(concl[1]), set()):
+                        facts[M.snake(concl[1])].add(row)
+                        changed = True
+                elif concl[0] == "eq":
+                    t = M.snake(tys[concl[1]])
+                    a, b = find(t, sg[concl[1]]), find(t, sg[concl[2]])
+                    if a != b:
+                        par[t][max(a, b)] = min(a, b)
+                        changed = True
+                elif concl[0] == "def":
+                    rel = M.snake(concl[1])
+                    args = tuple(sg[v] for v in concl[2])
+                    if not any(r_[:-1] == args for r_ in facts.get(rel, ())):
+                        t = types_of_rel[rel][-1]
+                        if created >= max_new:
+                            return None
+                        created += 1
+                        par[t].append(len(par[t]))
+                        facts.setdefault(rel, set()).add(args + (len(par[t]) - 1,))
+                        changed = True
+            if changed:
+                break
+        if not changed:
+            return facts, find
+    return None
+
+
+def sound_program(task):
+    """for every stage of every (non-functionality) rule with at most 5 variables and 7 premise tuples: the real rule module is run
+    concretely on EVERY sub-database of the stage's canonical database; every tuple, equality and definition it pushes must be the
+    conclusion of some stage of the same rule under an assignment whose premise holds in that sub-database.  A conjunctive query
+    computed by the generated code that is not contained in the reference rule shows up on one of these databases, whatever the
+    size of the model.  Returns violations with a native replay script."""
+    import pipeline as P
+    import lemmas as L
+    from loader import dump
+    P.limit_memory(16)
+    t0 = time.time()
+    res = {"program": task["program"], "stages": 0, "databases": 0, "pushes": 0, "violations": [], "skipped": [], "status": "ok"}
+    try:
+        su = L.Setup(task["rs"], task["eql"], 2, repo=P.REPO)
+        sch = M.Schema(su.prog)
+        files = dump([task["rs"]])
+        mods = {m[0]: m for m in C16.rule_modules(files)}
+        enum_types = set(L.enum_types(su, sch))
+        types_of_rel = {r.name: r.types for r in sch.rels.values()}
+        for rname, paths in su.rules:
+            if rname.startswith("functionality_"):
+                continue
+            mod = mods.get(M.snake(rname))
+            if mod is None:
+                continue
+            modname, envdecl, subs, entry = mod
+            stages = stage_list(paths)
+            for k, (prem, concl, tys, eqs) in enumerate(stages):
+                vs, val, tuples, per_type = canonical(prem, concl, tys, eqs)
+                if any(M.snake(tys[v]) in enum_types for v in vs):
+                    continue
+                flat = [(r_, row) for r_, rows in sorted(tuples.items()) if r_ not in sch.types for row in sorted(rows)]
+                if len(vs) > 5 or len(flat) > 7:
+                    res["skipped"].append("%s#%d: %d variables / %d premise tuples" % (rname, k, len(vs), len(flat)))
+                    continue
+                res["stages"] += 1
+                U = max([1] + list(per_type.values()))
+                seen = set()
+                for mask in range(1 << len(flat)):
+                    sub = {}
+                    for i, (r_, row) in enumerate(flat):
+                        if mask >> i & 1:
+                            sub.setdefault(r_, set()).add(row)
+                    ctx = V.set_ctx(V.Ctx(Circuit(), U=U))
+                    I = Interp(su.prog, ctx, loop_bound=U + 1)
+                    env, outs = build_env(envdecl, U, sub, per_type, set(sch.types))
+                    I.call_fn(entry, T, [env])
+                    res["databases"] += 1
+                    for field, lst in outs.items():
+                        for g, pv in lst.items():
+                            if g != T:
+                                continue
+                            tup = tuple(I.deref(x) for x in pv)
+                            res["pushes"] += 1
+                            body = field[len("new_"):]
+                            if body.endswith("_equalities"):
+                                kind, rel = "eq", body[:-len("_equalities")]
+                                if tup[0] == tup[1]:
+                                    continue
+                            elif body.endswith("_def") and body[:-4] in sch.rels:
+                                kind, rel = "def", body[:-4]
+                            else:
+                                kind, rel = "rel", body
+                                if tup in sub.get(rel, ()):
+                                    continue          # re-deriving a premise tuple is harmless
+                            if justified(stages, tys, sub, per_type, kind, rel, tup):
+                                continue
+                            key = (kind, rel, tup, mask)
+                            if key in seen:
+                                continue
+                            seen.add(key)
+                            if len(res["violations"]) < 6:
+                                script = []
+                                for t in sch.types:
+                                    script += ["new_" + t] * per_type.get(t, 0)
+                                for r_, rows in sorted(sub.items()):
+                                    for row in sorted(rows):
+                                        script.append("insert_%s %s" % (r_, " ".join(map(str, row))))
+                                res["violations"].append({"rule": rname, "stage": k, "kind": kind, "rel": rel, "tuple": list(tup), "database": {r_: sorted(map(list, rows)) for r_, rows in sub.items()},
+                                                          "elements": dict(per_type), "script": script})
+    except Unsupported as ex:
+        res["status"] = "inconclusive"
+        res["reason"] = "Unsupported: %s" % ex
+    except Exception:
+        import traceback
+        res["status"] = "inconclusive"
+        res["reason"] = traceback.format_exc()[-1200:]
+    res["wall_s"] = round(time.time() - t0, 1)
+    return res
+
+
+def replay_sound(harness, name, su, sch, v, terminates=True):
+    """native confirmation of an unjustified push: the sub-database through the public API, close(), and the pushed fact is
+    observable although the reference chase of the whole program over the same database (the least model) lacks it.
+    Returns (confirmed, observation, certificate)"""
+    import history as H
+    import native as N
+    types_of_rel = {r.name: r.types for r in sch.rels.values()}
+    facts = {r_: set(tuple(x) for x in rows) for r_, rows in v["database"].items()}
+    ch = chase(su.rules, facts, v["elements"], types_of_rel)
+    if ch is None:
+        return False, "the reference chase does not stabilise within the bounds: no certificate", None
+    cfacts, find = ch
+    tup = tuple(v["tuple"])
+    if v["kind"] == "rel":
+        forced = tuple(find(t, x) for t, x in zip(types_of_rel[v["rel"]], tup)) in cfacts.get(v["rel"], ())
+        query, good = "%s %s" % (v["rel"], " ".join(map(str, tup))), "true"
+    elif v["kind"] == "eq":
+        forced = find(v["rel"], tup[0]) == find(v["rel"], tup[1])
+        query, good = "are_equal_%s %d %d" % (v["rel"], tup[0], tup[1]), "true"
+    else:
+        forced = any(r_[:-1] == tuple(find(t, x) for t, x in zip(types_of_rel[v["rel"]][:-1], tup)) for r_ in cfacts.get(v["rel"], ()))
+        query, good = "%s %s" % (v["rel"], " ".join(map(str, tup))), "Some"
+    if forced:
+        return False, "the pushed fact is forced by other rules of the program on this database", None
+    try:
+        rc, out, err = harness.run(name, v["script"] + ["close" if terminates else "close_until 4", query], timeout=120)
+    except Exception as ex:
+        return False, "native run failed: %r" % ex, None
+    if rc != 0:
+        return True, "native run panics: " + err.strip().split("\n")[0][:200], None
+    r = H.normalise_native_ret([e[1] for e in N.parse_output(out) if e[0] == "ret"][-1], set(su.prog.newtypes))
+    seen = r.startswith("Some") if good == "Some" else r == good
+    cert = {k_: sorted(map(list, rows)) for k_, rows in cfacts.items()}
+    return seen, "%s = %s after close(), although the least model of the rules over this database lacks it" % (query, r), cert
